@@ -480,7 +480,13 @@ def corpus_fixed():
                 if p["ty"][0] == "gen":
                     p["gname"] = ["T", "U", "V", "W"][gi]
                     gi += 1
-    return [t0, t1, t2]
+    # a trait the macro must REJECT: a parameter attribute with a key it does not know next to `rename`
+    # (until /repo's repair of extract_zlink_attrs the error was swallowed together with the rename, and the
+    # argument went out under its Rust name)
+    t3 = {"tid": 3, "trait": "T3Proxy", "iface": "org.example.T3", "attr": "lit", "expect_reject": True, "methods": [
+        M("get", [dict(P("key", ["str"], "Key"), attr_extra=", typo")], [[["s", "k"]]]),
+    ]}
+    return [t0, t1, t2, t3]
 
 
 # identifiers a user may well pick for a parameter and that generated code is likely to use itself;
@@ -615,7 +621,7 @@ def render_method_sig(m):
     g = "<%s>" % ", ".join(gens) if gens else ""
     ps = ["&mut self"]
     for p, lt in zip(m["params"], lts):
-        a = ("#[zlink(rename = %s)] " % rust_str(p["rename"])) if p["rename"] is not None else ""
+        a = ("#[zlink(rename = %s%s)] " % (rust_str(p["rename"]), p.get("attr_extra", ""))) if p["rename"] is not None else ""
         ps.append("%s%s: %s" % (a, p["name"], rust_type(p["ty"], lt, p.get("gname"))))
     out_t = out_type(m)
     if m["oneway"]:
